@@ -199,6 +199,9 @@ _bk_gen, _bk_chk = build.backend_dimension(0.12)
 gen_case = _bk_gen(gen_case)
 check_case = _bk_chk(check_case)
 
+# no clause depends on the coordinate unit: 8 % of the planar cases are expressed in a small unit (everything x 2^-7..2^-17)
+gen_case = mcase.scale_dimension(0.08)(gen_case)
+
 TECHNIQUE = "runtime monitoring: totality monitor (classified exceptions escaping match on generated hostile valid inputs) + pairs-vs-triples differential"
 LEVEL_TEXT = ("{Q} (quick) / {T} (thorough) generated hostile valid inputs in every (family, metric, non-emitting) cell, each matched with pairs and with "
               "time triples; any escaping exception is a violation classified by origin; the two results must be equal. Held-on-observed.")
